@@ -704,6 +704,50 @@ impl EventBuffer {
     }
 }
 
+#[cfg(dnp3_verif)]
+impl EventBuffer {
+    /// verif hook H6: contents and counters of the buffer, for the harness's audit
+    pub(crate) fn verif_facts(&self) -> crate::verif::probe::BufferFacts {
+        let records = self
+            .events
+            .iter()
+            .map(|(_, r)| crate::verif::probe::RecordFacts {
+                id: r.id,
+                index: r.index,
+                class: match r.class {
+                    EventClass::Class1 => 1,
+                    EventClass::Class2 => 2,
+                    EventClass::Class3 => 3,
+                },
+                type_tag: match r.event {
+                    Event::Binary(..) => 0,
+                    Event::DoubleBitBinary(..) => 1,
+                    Event::BinaryOutputStatus(..) => 2,
+                    Event::Counter(..) => 3,
+                    Event::FrozenCounter(..) => 4,
+                    Event::Analog(..) => 5,
+                    Event::AnalogOutputStatus(..) => 6,
+                    Event::OctetString(..) => 7,
+                },
+                state: match r.state.get() {
+                    EventState::Unselected => 0,
+                    EventState::Selected => 1,
+                    EventState::Written => 2,
+                },
+            })
+            .collect();
+        crate::verif::probe::BufferFacts {
+            list: self.events.verif_facts(),
+            records,
+            total: self.total.into(),
+            written: self.written.into(),
+            config: self.config,
+            is_overflown: self.is_overflown,
+            next: self.next,
+        }
+    }
+}
+
 impl Insertable for measurement::BinaryInput {
     type EventVariation = EventBinaryInputVariation;
 
